@@ -43,4 +43,18 @@ PROPS = {
             {"name": "sampled", "budget_s": 900, "chunk": 15},
         ], "minimise_s": 180},
     },
+    "C06": {
+        "test": "TestC06",
+        "level": "exploration",
+        "world": "A: one real Network engine node with the real VDR ambassador and DID store",
+        "rule": "each run: a seeded valid DAG corpus plus mutants with a defect known by construction (clock +-1, unknown prev, wrong payload, signature by "
+                "another key, tampered signature/header/payload hash, kid and jwk, neither, unknown kid, kid signed by a key the DID document does not list, "
+                "HMAC / none algorithm, missing critical headers, unsupported version, second root, two signatures), offered by 2-4 concurrent tasks with "
+                "duplicates and out of causal order while the node creates transactions itself; one third of the runs inject KV operation errors and commit "
+                "failures. Non-trivial: at least one non-FIFO scheduling decision or fault and at least one offer; distinct = distinct trace hashes.",
+        "invariants": ["C06.valid-only", "C06.causal", "C06.accept", "C06.no-trace", "C06.once", "C06.payload"],
+        "assumptions": KV_ASSUME + ["validity of a transaction is known by construction of the workload, not by re-implementing the parser or verifier"],
+        "quick": {"budget_s": 100, "chunk": 15},
+        "thorough": {"budget_s": 1500, "chunk": 15, "minimise_s": 180},
+    },
 }
